@@ -95,6 +95,7 @@ def run(tier, seed):
                    '!dup\u2126', '?query'], 6 if tier == 'thorough' else 5,
                   [ROOTS[0]]))
     plans.append((['L1', 'L2', 'LL', '!LL2', 'B1', 'B1c', 'xc1', 'x1',
+                   '!subdef',
                    'xnone', '!zero', '!zeroterm', 'Q1', 'qnone', 'S12',
                    'x1^12', '?query'], 5 if tier == 'thorough' else 4, [ROOTS[0]]))
     plans.append((['xnone', 'xnone/y0', 'x1/y1', '!dupsym', '?query'], 4,
